@@ -53,7 +53,7 @@ class WorldC01(World):
     STATE_CHANGING = ('mkmode', 'mkspecies', 'edit', 'swap')
     STATE_RULE = 'per species: (mode classes in its five slots, modes shared with another species, edits since construction bucket)'
     PROBES = ('edit-imaginary-substitute', 'edit-wavenumbers', 'edit-wavenumbers-in-place', 'integer-wavenumbers', 'edit-spin', 'edit-qrrho-parameter', 'mode-shared-by-two-species', 'constant-mode-additivity-only', 'lsr-electronic-mode', 'textbook-harmonic-q-both-zeros', 'option-through-species', 'rot-temperatures-as-array', 'conditions-in-a-reused-dictionary',
-              'mutator-raised-part-way', 'integer-temperature',
+              'mutator-raised-part-way', 'integer-temperature', 'rot-temperatures-from-moments', 'species-with-misc-models',
               'swap-mode', 'imaginary-mode-present', 'monatomic-rotor', 'linear-rotor', 'trans-1-or-2-dof', 'point-group-label',
               'debye-mode', 'einstein-mode', 'qrrho-mode', 'low-T-regime', 'high-T-regime', 'verbose-sum', 'pressure-shift',
               'textbook-harmonic', 'textbook-trans', 'textbook-rotor', 'textbook-elec', 'textbook-einstein', 'textbook-debye-Cv', 'textbook-qrrho', 'geometry-rigid-motion')
@@ -101,6 +101,7 @@ class WorldC01(World):
         self.slots = {}    # id -> {slot: mode id}
         self.n_edits = 0
         self.cdict = {}    # species id -> the caller's reused conditions dictionary
+        self.misc = {}     # species id -> parameter dicts of its misc models (user-set constant modes)
 
     def _gen_params(self, rng, kind):
         u = rng.uniform
@@ -160,8 +161,12 @@ class WorldC01(World):
                     mid = len(self.mode) + len(new)
                     new.append({'id': mid, 'kind': kind, 'params': self._gen_params(rng, kind)})
                     slots[slot] = mid
+            misc = []
+            if rng.random() < 0.15:
+                # user-set constant contributions attached as misc models (additivity clause only)
+                misc = [self._gen_params(rng, 'ConstantMode') for _ in range(rng.randint(1, 3))]
             return {'c': c, 'op': 'mkspecies', 'args': {'id': len(self.sp), 'modes': new, 'slots': slots,
-                                                        'name': 'sp%d' % len(self.sp)}}
+                                                        'name': 'sp%d' % len(self.sp), 'misc': misc}}
         if sw['geometry'] and rng.random() < 0.1:
             return {'c': c, 'op': 'geometry', 'args': {
                 'mol': rng.choice(['H2O', 'CO2', 'CH4', 'NH3', 'C2H4', 'H2', 'CO', 'C2H6', 'CH3OH', 'N2', 'O3', 'C6H6', 'HCN']),
@@ -232,12 +237,13 @@ class WorldC01(World):
         self.mk[md['id']] = md['kind']
         self.mp[md['id']] = dict(md['params'])
 
-    def _species_from(self, name, slots, fresh=False):
+    def _species_from(self, name, slots, fresh=False, misc=None):
         objs = {}
         for slot, mid in slots.items():
             objs[slot] = self._build_mode(self.mk[mid], self.mp[mid]) if fresh else self.mode[mid]
+        mm = [self.cls['ConstantMode'](**p_) for p_ in misc] if misc else None
         return self.sm.StatMech(name=name, trans_model=objs['trans'], vib_model=objs['vib'], rot_model=objs['rot'],
-                                elec_model=objs['elec'], nucl_model=objs['nucl'])
+                                elec_model=objs['elec'], nucl_model=objs['nucl'], misc_models=mm)
 
     # ------------------------------------------------------------------ apply
     def apply(self, op):
@@ -251,8 +257,10 @@ class WorldC01(World):
                 self._add_mode(md)
             if any(mid not in self.mode for mid in a['slots'].values()) or set(a['slots']) != set(SLOT_KINDS):
                 raise Skip()
-            self.sp[a['id']] = self.real(self._species_from, a['name'], a['slots'], _what='StatMech constructor')
+            self.sp[a['id']] = self.real(self._species_from, a['name'], a['slots'], misc=a.get('misc') or None,
+                                         _what='StatMech constructor')
             self.slots[a['id']] = dict(a['slots'])
+            self.misc[a['id']] = [dict(p_) for p_ in (a.get('misc') or [])]
             out = 'species'
         elif name == 'edit':
             if a['mode'] not in self.mode:
@@ -373,7 +381,7 @@ class WorldC01(World):
         what = 'species %d %s' % (sid, sorted(kinds.items()))
         v = self._getters(sp, T, P, what, sid=sid)
         # (c) coherence: the edited object equals a freshly built one with the same public parameters
-        fresh = self._species_from('fresh', sl, fresh=True)
+        fresh = self._species_from('fresh', sl, fresh=True, misc=self.misc.get(sid) or None)
         vf = self._getters(fresh, T, P, 'fresh twin of ' + what)
         for q in QS:
             if abs(v[q] - vf[q]) > 1e-10 * max(1.0, abs(vf[q])):
@@ -382,7 +390,9 @@ class WorldC01(World):
                                 '%s: get_%s(T=%r) = %r after its edit history, a freshly built species with the same public '
                                 'parameters gives %r (parameters %r)' % (what, q, T, v[q], vf[q], stale))
         tol = lambda *xs: 1e-9 * max([1.0] + [abs(x) for x in xs])
-        if 'ConstantMode' in kinds.values():
+        if self.misc.get(sid):
+            ctx.probe('species-with-misc-models')
+        if 'ConstantMode' in kinds.values() or self.misc.get(sid):
             ctx.probe('constant-mode-additivity-only')
             if full:
                 self._check_verbose(sp, sl, kinds, v, T, P, what, tol)
@@ -473,6 +483,28 @@ class WorldC01(World):
 
     def _check_verbose(self, sp, sl, kinds, v, T, P, what, tol):
         ctx, np = self.ctx, self.np
+        sid_ = [k_ for k_, o_ in self.sp.items() if o_ is sp]
+        misc = self.misc.get(sid_[0]) if sid_ else None
+        if misc:
+            # the misc models' share: the sum of what each reports (the product, for partition functions)
+            mods = [self.cls['ConstantMode'](**p_) for p_ in misc]
+            for q in QS:
+                arr = np.asarray(_call(getattr(sp, 'get_' + q), T=T, P=P, verbose=True), dtype=float)
+                want_m = [float(_call(getattr(m_, 'get_' + q), T=T, P=P)) for m_ in mods]
+                got_m = [float(x) for x in arr[6:]]
+                if len(got_m) != len(want_m) or any(abs(g_ - w_) > tol(w_) for g_, w_ in zip(got_m, want_m)):
+                    raise Violation('verbose-sum', '%s: the misc-model entries of get_%s are %r, the models themselves report %r' % (
+                        what, q, got_m, want_m))
+            if kinds['vib'] != 'QRRHOVib':
+                want_q = 1.0
+                for m_ in mods:
+                    want_q *= float(m_.get_q())
+                qt = float(_call(sp.get_q, T=T, P=P))
+                base = float(np.prod(np.asarray(_call(sp.get_q, T=T, P=P, verbose=True), dtype=float)[:6]))
+                if math.isfinite(qt) and math.isfinite(base) and 1e-250 < abs(base * want_q) < 1e250 and \
+                        abs(qt - base * want_q) > 1e-9 * abs(base * want_q):
+                    raise Violation('verbose-product', '%s: get_q = %r; the modes multiply to %r and the misc models to %r' % (
+                        what, qt, base, want_q))
         # verbose
         ctx.probe('verbose-sum')
         for q in QS:
@@ -621,6 +653,21 @@ class WorldC01(World):
         if abs(ref['mw'] - got['mw']) > 1e-9 or ref['elements'] != got['elements']:
             raise Violation('geometry-invariant', '%s: molar mass / composition changed (%r, %r) -> (%r, %r)' % (
                 a['mol'], ref['mw'], ref['elements'], got['mw'], got['elements']))
+        # the rotational temperatures themselves: h^2 / (8 pi^2 I k) of the principal moments of inertia (taken from ASE);
+        # three for a nonlinear molecule (equal ones included), one for a linear one, none for an atom
+        c = self.c
+        moments = [float(x) for x in at.get_moments_of_inertia()]
+        want_rt = sorted(c.h('J s') ** 2 / (8 * math.pi ** 2 * (I_ * 1.66053906660e-27 * 1e-20) * c.kb('J/K'))
+                         for I_ in moments if I_ > 1e-6)
+        if ref['geometry'] == 'linear':
+            want_rt = want_rt[:1]
+        elif ref['geometry'] == 'monatomic':
+            want_rt = []
+        have_rt = sorted(ref['rot'])
+        if len(have_rt) != len(want_rt) or any(abs(x - y) > 1e-3 * y for x, y in zip(have_rt, want_rt)):
+            raise Violation('geometry-invariant', '%s (%s): rotational temperatures %r; from the principal moments of inertia %r' % (
+                a['mol'], ref['geometry'], have_rt, want_rt))
+        self.ctx.probe('rot-temperatures-from-moments')
         for side, g in (('as bundled', ref), ('moved / permuted', got)):
             if abs(g['sp_mw'] - ref['mw']) > 1e-9 or g['sp_elements'] != ref['elements'] or g['sp_geometry'] != ref['geometry']:
                 raise Violation('geometry-invariant', '%s (%s): a species built from the Atoms object has molar mass %r, '
